@@ -100,13 +100,13 @@ impl<const N: u32> PxE1<{ N }> {
             Self::from_bits(u_z)
         } else {
             let (mut k_a, tmp) = Self::separate_bits_tmp(ui_a);
-            let mut exp_a = (tmp >> 29) as i32; //to get 2 bits
-            let frac_a = (tmp << 2) | 0x_8000_0000;
+            let mut exp_a = (tmp >> 30) as i32; //to get 1 bit
+            let frac_a = (tmp << 1) | 0x_8000_0000;
 
             let (k_b, tmp) = Self::separate_bits_tmp(ui_b);
             k_a += k_b;
-            exp_a += (tmp >> 29) as i32;
-            let mut frac64_z = (frac_a as u64) * (((tmp << 2) | 0x_8000_0000) as u64);
+            exp_a += (tmp >> 30) as i32;
+            let mut frac64_z = (frac_a as u64) * (((tmp << 1) | 0x_8000_0000) as u64);
 
             if exp_a > 1 {
                 k_a += 1;
@@ -194,7 +194,7 @@ impl<const N: u32> PxE1<{ N }> {
                     }
                     exp_z ^= 1;
                     if (frac64_z & 0x1) != 0 {
-                        bits_more = false;
+                        bits_more = true;
                     }
                     frac64_z = (frac64_z >> 1) & 0x_7FFF_FFFF_FFFF_FFFF;
                 } else {
@@ -240,8 +240,8 @@ impl<const N: u32> PxE1<{ N }> {
                     if reg_z != (N - 2) {
                         bit_n_plus_one =
                             ((0x_8000_0000_0000_0000_u64 >> (N - reg_z - 1)) & frac64_z) != 0;
-                        bits_more =
-                            ((0x_7FFF_FFFF_FFFF_FFFF_u64 >> (N - reg_z - 1)) & frac64_z) != 0;
+                        bits_more = bits_more
+                            || ((0x_7FFF_FFFF_FFFF_FFFF_u64 >> (N - reg_z - 1)) & frac64_z) != 0;
                         frac_z &= Self::mask();
                     } else if frac64_z > 0 {
                         frac_z = 0;
